@@ -16,6 +16,7 @@ pub struct E57Writer<T: Read + Write + Seek> {
     extensions: Vec<Extension>,
     images: Vec<Image>,
     root: Root,
+    finalize_failed: bool,
 }
 
 impl<T: Write + Read + Seek> E57Writer<T> {
@@ -47,6 +48,7 @@ impl<T: Write + Read + Seek> E57Writer<T> {
             images: Vec::new(),
             extensions: Vec::new(),
             root,
+            finalize_failed: false,
         })
     }
 
@@ -126,6 +128,20 @@ impl<T: Write + Read + Seek> E57Writer<T> {
             &self.extensions,
         )?;
         let xml = transformer(xml)?;
+
+        // A failed attempt leaves the file and the writer position in an undefined state.
+        // Trying again would write the XML to a wrong place and report success for a broken file.
+        if self.finalize_failed {
+            Error::invalid("A previous attempt to finalize this file failed, the file cannot be completed")?
+        }
+        let result = self.write_xml_and_header(&xml);
+        if result.is_err() {
+            self.finalize_failed = true;
+        }
+        result
+    }
+
+    fn write_xml_and_header(&mut self, xml: &str) -> Result<()> {
         let xml_bytes = xml.as_bytes();
         let xml_length = xml_bytes.len();
         let xml_offset = self.writer.physical_position()?;
